@@ -379,6 +379,70 @@ def check_ties(points):
     return out + [("@ties", "")]
 
 
+# ---- the same coordinates in another number type -------------------------------------------------------------------------------
+def dtype_cases(tier):
+    out = []
+    base2 = [(2.1, 0.0), (0.0, 0.7), (5.3, 4.2), (-2.1, 6.3), (8.4, -0.7)]
+    exact2 = [(2.0, 0.0), (0.0, 0.5), (5.25, 4.0), (-2.0, 6.5), (8.0, -0.75)]
+    for pts in (base2, exact2, [p + (1.3 * i,) for i, p in enumerate(base2)], [p + (0.5 * i,) for i, p in enumerate(exact2)]):
+        for dt in ("float32", "float16" if pts is exact2 else "float32", "int" if False else "float64-fortran"):
+            out.append(("dtype", tuple(pts), dt))
+    out.append(("dtype", ((2.0, 0.0), (0.0, 3.0), (5.0, 4.0), (-2.0, 6.0)), "int"))
+    return out
+
+
+def check_dtype(points, dt):
+    """A layout / detuning map is identified by its coordinates (to 1e-6 um): the number type of the array they came in does not
+    change trap ids, equality, hashes, look-ups or weights."""
+    from pulser.register.register_layout import RegisterLayout
+    from pulser.register.weight_maps import DetuningMap
+
+    dim = "3d" if len(points[0]) == 3 else "2d"
+    ref = RegisterLayout([list(p) for p in points])
+    if dt == "int":
+        arr = np.array(points, dtype=int)
+    elif dt == "float64-fortran":
+        arr = np.asfortranarray(np.array(points, dtype=float))
+    else:
+        arr = np.array(points, dtype=getattr(np, dt))
+    if dt in ("float32", "float16") and np.abs(arr.astype(float) - np.array(points)).max() > 4e-7:
+        return [("@not-representable-within-the-rounding", "")]
+    out = []
+    try:
+        L = RegisterLayout(arr)
+    except Exception as e:
+        return gridx.crash_finding(e, "building-a-layout", f"{dt}") or [(f"C19:layout-from-{dt}-array-refused:{dim}", f"{e}"[:150])]
+    if (L == ref) is not True or (ref == L) is not True:
+        out.append((f"C19:layout-identity-depends-on-the-number-type:{dt}:equality:{dim}", f"{points}"))
+    if hash(L) != hash(ref):
+        out.append((f"C19:layout-identity-depends-on-the-number-type:{dt}:hash:{dim}", f"{points}"))
+    for meth in ("static_hash", "_safe_hash"):
+        if hasattr(L, meth) and getattr(L, meth)() != getattr(ref, meth)():
+            out.append((f"C19:layout-identity-depends-on-the-number-type:{dt}:{meth}:{dim}", f"{points}"))
+    want = list(ref.get_traps_from_coordinates(*points))
+    try:
+        got = list(L.get_traps_from_coordinates(*points))
+        if got != want:
+            out.append((f"C19:trap-ids-depend-on-the-number-type:{dt}:{dim}", f"{got} vs {want}"))
+        reg = L.define_register(*want[:3], qubit_ids=["a0", "a1", "a2"])
+        back = list(L.get_traps_from_coordinates(*_reg_xy(reg)))
+        if back != want[:3]:
+            out.append((f"C19:register-lookup-depends-on-the-number-type:{dt}:{dim}", f"{back} vs {want[:3]}"))
+    except Exception as e:
+        out.append((f"C19:lookup-fails-for-a-layout-from-a-{dt}-array:{dim}", f"{e}"[:200]))
+    wts = [0.1 * (i + 1) for i in range(len(points))]
+    try:
+        dm, dmref = DetuningMap(arr, wts), DetuningMap([list(p) for p in points], wts)
+        w1 = dm.get_qubit_weight_map({f"a{i}": np.array(p, dtype=float) for i, p in enumerate(points)})
+        if any(abs(w1[f"a{i}"] - wts[i]) > 1e-12 for i in range(len(points))):
+            out.append((f"C19:weights-depend-on-the-number-type:{dt}:{dim}", f"{w1}"))
+        if (dm == dmref) is not True:
+            out.append((f"C19:detuning-map-identity-depends-on-the-number-type:{dt}:{dim}", ""))
+    except Exception as e:
+        out.append((f"C19:detuning-map-from-a-{dt}-array-fails:{dim}", f"{e}"[:200]))
+    return out + [("@dtype", "")]
+
+
 # ---- lattice layouts and the registers they define -------------------------------------------------------------------------
 def special_cases(tier):
     out = []
@@ -497,6 +561,8 @@ def worker(points):
         warnings.simplefilter("ignore")
         if points and points[0] == "special":
             return check_special(*points[1:])
+        if points and points[0] == "dtype":
+            return check_dtype(tuple(tuple(p) for p in points[1]), points[2])
         if points and points[0] == "ties":
             return check_ties(tuple(tuple(p) for p in points[1]))
         if points and points[0] == "hist":
@@ -525,13 +591,13 @@ def run(tier, seed):
                 classes[fp] = classes.get(fp, 0) + 1
             else:
                 res.add(Violation(fp, d, {"engine": "grid", "points": ["hist", c[1], c[2], list(c[3])]}, size=len(c[3])))
-    sc = special_cases(tier) + tie_cases(tier)
+    sc = special_cases(tier) + tie_cases(tier) + dtype_cases(tier)
     for c, r in zip(sc, gridx.run(worker, sc)):
         for fp, d in r:
             if fp.startswith("@"):
                 classes[fp] = classes.get(fp, 0) + 1
             else:
-                res.add(Violation(fp, d, {"engine": "grid", "points": [c[0], [list(p) for p in c[1]]] if c[0] == "ties" else list(c)}, size=1))
+                res.add(Violation(fp, d, {"engine": "grid", "points": ([c[0], [list(p) for p in c[1]]] + list(c[2:])) if c[0] in ("ties", "dtype") else list(c)}, size=1))
     res.coverage = dict(
         evaluations=perms + len(hc) + len(sc), distinct_nontrivial=len(sets) + classes.get("@hist", 0), exhaustive=True, point_sets=len(sets),
         object_histories=len(hc), outcome_classes=classes,
